@@ -67,6 +67,28 @@ def cascade_ctor(ts):
     return S
 
 
+def wide_solver(ts, width):
+    """two bundles of `width` parallel two-ports joined by `width` links (one join over a wide interface)"""
+    n = width
+    z = [complex(float(t[0]), float(t[1])) for t in ts]
+
+    def bundle(zs):
+        S = np.zeros((2 * n, 2 * n), complex)
+        for k in range(n):
+            S[k, n + k] = S[n + k, k] = zs[k % len(zs)]
+        pins = {Pin(f"a{k}"): k for k in range(n)}
+        pins.update({Pin(f"b{k}"): n + k for k in range(n)})
+        return lk.Model(pin_dic=pins, Smatrix=S)
+    with lk.Solver() as S:
+        A = bundle(z[:len(z) // 2]).put()
+        B = bundle(z[len(z) // 2:]).put()
+        for k in range(n):
+            lk.connect(A.pin[f"b{k}"], B.pin[f"a{k}"])
+        lk.Pin("in").put(A.pin["a0"])
+        lk.Pin("out").put(B.pin["b0"])
+    return S
+
+
 def nest_solver(ts):
     """depth len(ts): level k = [two-port t_k] -- [level k-1]"""
     inner = None
@@ -105,9 +127,9 @@ class ClosedFormStream(Stream):
 
     def generate(self, rng, tier):
         sizes = [("cascade", 200), ("cascade", 1000), ("nest", 16), ("nest", 40), ("placed", 300), ("cascade_ctor", 300),
-                 ("placed_flat", 200)] if tier == "quick" else \
+                 ("placed_flat", 200), ("wide", 2)] if tier == "quick" else \
                 [("cascade", 500), ("cascade", 2000), ("cascade", 2000), ("nest", 40), ("nest", 60), ("placed", 800),
-                 ("cascade_ctor", 1500), ("placed_flat", 600)]
+                 ("cascade_ctor", 1500), ("placed_flat", 600), ("wide", 2), ("wide", 4)]
         out = []
         for kind, n in sizes:
             idx = [rng.randrange(len(PHASES) - 1) for _ in range(n)]
@@ -123,10 +145,14 @@ class ClosedFormStream(Stream):
             prod = cmulf(prod, t)
         if d["kind"] in ("placed", "placed_flat"):
             prod = cmulf(prod, prod)
+        if d["kind"] == "wide":
+            # in -> A(a0 -> b0) -> B(a0 -> b0) -> out: the first element of each half
+            prod = cmulf(ts[0], ts[len(ts) // 2])
         expected = [prod, (Fr(0), Fr(0)), prod, (Fr(0), Fr(0))]
         try:
             def go():
-                S = (cascade_solver(ts) if d["kind"] == "cascade" else
+                S = (wide_solver(ts, 260) if d["kind"] == "wide" else
+                     cascade_solver(ts) if d["kind"] == "cascade" else
                      cascade_ctor(ts) if d["kind"] == "cascade_ctor" else
                      placed_solver(ts) if d["kind"] in ("placed", "placed_flat") else nest_solver(ts))
                 if d["kind"] == "placed_flat":
